@@ -2,6 +2,7 @@ package main
 
 import (
 	"context"
+	"errors"
 	"fmt"
 	"math/rand"
 	"net"
@@ -103,6 +104,19 @@ func genDelayCase(rng *rand.Rand, kind string) dcase {
 	return c
 }
 
+var errRestartInconclusive = errors.New("old forwarding goroutine still present")
+
+// routerLoops counts goroutines that are inside a router's forwarding loop (parked or running).
+func routerLoops() int {
+	n := 0
+	for _, g := range gstate.Snapshot() {
+		if g.Has("vnet.(*Router).Start.func1") {
+			n++
+		}
+	}
+	return n
+}
+
 // runDelayCase returns (violation key, description) or "" and updates counters.
 func runDelayCase(c dcase, r *res.Result) (string, string) {
 	delay := time.Duration(c.DelayUs) * time.Microsecond
@@ -190,6 +204,16 @@ func runDelayCase(c dcase, r *res.Result) (string, string) {
 		restart = func() error {
 			if err := rt.Stop(); err != nil {
 				return err
+			}
+			// Stop only signals the forwarding goroutine; it does not wait for it. Starting again while the old goroutine
+			// is still inside a pass would run two forwarding loops side by side for a moment (the old one may be handing
+			// a datagram to its NIC while the new one hands over the next). The property does not speak about that
+			// overlap, so the restart waits until the old goroutine is gone.
+			for t0 := time.Now(); len(gstate.ParkedIn(gstate.Snapshot(), "vnet.(*Router).Start.func1")) > 0 || routerLoops() > 0; {
+				if time.Since(t0) > 5*time.Second {
+					return errRestartInconclusive
+				}
+				time.Sleep(100 * time.Microsecond)
 			}
 			return rt.Start()
 		}
@@ -293,7 +317,9 @@ wait:
 	if panicMsg == "" && c.Restart && restart != nil {
 		// the router is stopped and started again while datagrams are still waiting out their delay; nothing is handed in
 		// meanwhile. Once it runs again, what is queued must still be forwarded (not before its delay)
-		if err := restart(); err != nil {
+		if err := restart(); err == errRestartInconclusive {
+			return "", "inconclusive: the stopped router's forwarding goroutine did not exit within 5 s"
+		} else if err != nil {
 			return "delay:" + c.Kind + ":restart-failed", "Stop/Start of a router with queued datagrams failed: " + err.Error()
 		}
 		r.Count("router_restarts_with_queued_datagrams", 1)
